@@ -25,6 +25,7 @@ TECHNIQUE += '; refill polarity and discarding views of the task iterator (R1), 
 LEVEL_TEXT += ' Added clauses: the refill runs whenever the run is not stopped; no islice start/step or filter skips tasks; exactly one emitting statement per path of parproc and no unguarded tasks[0]; taskproc stores outcome or exception and re-raises exactly when reraise is set or raises() names other types; a stopped task reports an exception.'
 TECHNIQUE += '; falsy outcomes in the worker contract'
 TECHNIQUE += '; exits of the loop over pending futures lie under a stop test; same-environment rule (no worker initializer, interpreter-wide set-up only inside the worker function)'
+TECHNIQUE += '; every mapping variant active_pmap can return hands its tasks to the verified loop at most once and unchanged (R11, path-state execution)'
 LEVEL_TEXT += ' Added clause: the generator ends only when nothing is pending or the run is stopped.'
 LEVEL_NOTE = 'Trusted: concurrent.futures.as_completed iterates over a snapshot of the futures given and yields each exactly once.'
 EXPLANATION = ('Static analysis of /repo sources, TatSu not imported. executor_pmap is executed abstractly with an "owed result" '
